@@ -73,12 +73,37 @@ R5  speciation identities (T-ALG): for every member of ThrustMode the NO, NO2
     NOx_speciation() result; BFFM2's NO / NO2 / HONO results are its returned
     NOx index times a per-point array of the species' own fraction (np.array /
     np.fromiter over `[X.f[c] for c in C]`, or `X.f.broadcast(C)`), all three
-    looked up by one category array.  Stores under constant Species keys are
+    looked up by one category array.  The stored NOx index may be an
+    unmodified copy (`x.copy()`, copy.copy, np.array) of the value that is
+    speciated.  Stores under constant Species keys are
     collected whether written out or made by a loop over a constant table.
 R6  memoised mutables: a local bound from a call of a functools.cache'd function
     of the emissions package is not stored into in place unless it was rebound
     to a copy first (the generic form, including results kept in containers
     and aliases, is T-MEMO M2).
+R7  caller-held data are not written (ownership by abstract interpretation):
+    every in-place store a function of the emissions package makes (`x[k] =`,
+    `x[a:b] =`, `x.a =`, `x[k] op=`, `del x[k]`, update / append / fill / …)
+    is made on an object this computation created on *every* path that
+    reaches the store - constructed, computed, or copied (.copy(), dict(),
+    np.array(), deepcopy) - never on one that can still be held by somebody
+    else: a parameter, anything reached from one by attribute / element /
+    iteration / view (the LTO data of the performance model), a module-level
+    object, a memoised result, or a wrapper whose constructor keeps its
+    argument by reference.  The functions' own statements are run over these
+    descriptions: containers remember what was put into them, branches are
+    joined (a copy made under a condition - a mutability flag, a type or
+    emptiness test - leaves the object foreign on the other branch), the two
+    outcomes of a test that the function repeats unchanged are kept apart, loops
+    run to a fixed point, `for k in m: m[k] = <copy>` / m.update({k: … for k
+    in m}) over every key replaces what m holds, and resolved functions of the
+    package are entered with the caller's values (private helpers are judged
+    with what their callers hand them); a repository `copy` method is read
+    before it is believed (one that returns the receiver itself on some path
+    copies nothing there).  Objects of unknown origin (results of library
+    calls, of methods other than copy) are never reported; copy.copy() of a
+    repository object, nested functions and aliases of a container under a
+    second name are not modelled.
 Not decided: finiteness, sign, float rounding, numeric content of any EI.
 """
 
@@ -89,7 +114,7 @@ from fractions import Fraction
 
 from ..algebra import AlgebraError, normal_form, poly_equal
 from ..astutil import (ancestors, is_within, call_name, calls_in, const_value, enclosing_iterations, eval_pred, guards_of, iterated_mapping,
-                       kwarg, local_defs, map_iteration, norm, single_def_value, stmt_of, stores_to, tuple_def_component,
+                       kwarg, local_defs, map_iteration, names_in, norm, single_def_value, stmt_of, stores_to, tuple_def_component,
                        walk_no_nested)
 from ..conform import _inline_env
 
@@ -1472,10 +1497,29 @@ def rule_speciation(ctx):
                'own field' if ok else f'Species.{k} receives `{norm(s[0][0]) if s and s[0][0] is not None else None}`', nontrivial=False)
 
 
+def _copied_from(e):
+    """x when e is a copy of x: `x.copy(…)`, copy.copy(x) / copy.deepcopy(x), np.copy(x) / np.array(x)"""
+    if not isinstance(e, ast.Call):
+        return None
+    if call_name(e) in ('copy.copy', 'copy.deepcopy', 'deepcopy', 'np.copy', 'numpy.copy', 'np.array', 'numpy.array'):
+        return e.args[0] if len(e.args) == 1 and not isinstance(e.args[0], ast.Starred) else None
+    if isinstance(e.func, ast.Attribute) and e.func.attr == 'copy' and not e.args:
+        return e.func.value
+    return None
+
+
 def _same_text(fi, e):
     """text of what e stands for (followed through single-definition locals to the last name / expression): two
-    expressions with the same text denote the same value"""
+    expressions with the same text denote the same value.  A copy that nothing is stored into afterwards denotes the
+    value it was copied from."""
     chain = _stands_for(fi.node, e)
+    for _ in range(4):
+        src = _copied_from(chain[-1])
+        locals_ = {x.id for x in chain if isinstance(x, ast.Name)}
+        if src is None or any(isinstance(t, (ast.Subscript, ast.Attribute)) and isinstance(t.value, ast.Name) and t.value.id in locals_
+                              for t, _s, _h in stores_to(fi.node)):
+            break
+        chain = _stands_for(fi.node, src)
     last = next((x for x in reversed(chain) if isinstance(x, ast.Name)), chain[-1])
     return norm(last)
 
@@ -1601,8 +1645,1052 @@ def rule_cached_mutables(ctx):
     ctx.ob('C01-R6', ('src/AEIC/emissions', '<package>'), f'{n} call sites of memoised functions examined', True, 'see above', nontrivial=False)
 
 
+# ---------------------------------------------------------------------------------------------------------------
+# R7: ownership of what is written in place (a small abstract interpreter over the producers' own statements)
+# ---------------------------------------------------------------------------------------------------------------
+
+_FRESH, _SCALAR, _UNKNOWN = 'fresh', 'scalar', 'unknown'
+_VIEW_FUNCS = {'np.asarray', 'np.asanyarray', 'np.atleast_1d', 'np.atleast_2d', 'np.ravel', 'np.squeeze', 'np.reshape',
+               'np.ascontiguousarray', 'np.transpose', 'np.broadcast_to', 'numpy.asarray', 'numpy.asanyarray', 'np.ma.asarray'}
+_VIEW_METHODS = {'reshape', 'view', 'ravel', 'squeeze', 'transpose', 'swapaxes'}
+_COPY_FUNCS = {'dict', 'list', 'tuple', 'set', 'frozenset', 'sorted', 'OrderedDict', 'collections.OrderedDict', 'np.array',
+               'numpy.array', 'np.copy', 'numpy.copy', 'copy.copy', 'copy'}
+_DEEPCOPY_FUNCS = {'copy.deepcopy', 'deepcopy'}
+_INPLACE_METHODS = {'fill', 'sort', 'resize', 'itemset', 'put', 'partition', 'update', 'append', 'extend', 'clear', 'pop',
+                    'setdefault', 'insert', 'remove', 'add', 'discard', 'popitem', 'reverse', 'appendleft'}
+_MAX_DEPTH = 4
+
+
+class _AV:
+    """abstract value: `own` - who may hold the object itself ('fresh': created by this activation and not yet handed
+    out; ('foreign', kind, text): an object somebody else holds - reached from a parameter, a module-level name or a
+    memoised result; 'scalar'; 'unknown'); `held` - the same for what it contains (elements), `fields` - per attribute"""
+    __slots__ = ('own', 'held', 'fields', '_h')
+
+    def __init__(self, own, held=None, fields=None):
+        self.own = frozenset(own)
+        self.held = held
+        self.fields = tuple(sorted(fields.items())) if isinstance(fields, dict) else fields
+        self._h = hash((self.own, self.held, self.fields))
+
+    def __hash__(self):
+        return self._h
+
+    def __eq__(self, other):
+        return isinstance(other, _AV) and self._h == other._h and self.own == other.own and self.held == other.held \
+            and self.fields == other.fields
+
+    def foreign(self):
+        return sorted(t for t in self.own if isinstance(t, tuple))
+
+    def depth(self):
+        return 1 + max([self.held.depth() if self.held is not None else 0] + [v.depth() for _k, v in (self.fields or ())])
+
+
+_AV_UNKNOWN = _AV({_UNKNOWN})
+_AV_SCALAR = _AV({_SCALAR})
+_AV_FRESH = _AV({_FRESH})
+
+
+def _av_tags(av):
+    out = set(av.own)
+    if av.held is not None:
+        out |= _av_tags(av.held)
+    for _k, v in av.fields or ():
+        out |= _av_tags(v)
+    return out
+
+
+def _av_cap(av, room=_MAX_DEPTH):
+    """av with everything below `room` levels folded into one leaf"""
+    if av is None:
+        return None
+    if room <= 1:
+        return _AV(_av_tags(av)) if (av.held is not None or av.fields) else av
+    if av.held is None and not av.fields:
+        return av
+    return _AV(av.own, _av_cap(av.held, room - 1), {k: _av_cap(v, room - 1) for k, v in av.fields} if av.fields else None)
+
+
+def _clip(s, n=70):
+    return s if len(s) <= n else s[:n - 1] + '…'
+
+
+def _extend(desc, suffix):
+    """access path `desc` one step further; paths are kept to four steps so that loops reach a fixed point"""
+    if desc.endswith('…'):
+        return desc
+    return desc + '…' if desc.count('.') + desc.count('[') >= 4 else _clip(desc + suffix)
+
+
+def _av_read(av, suffix, field=None):
+    """what reading an element (`x[k]`, iteration) or an attribute (`x.a`) of an object described by av yields"""
+    if field is not None and av.fields:
+        d = dict(av.fields)
+        if field in d:
+            return d[field]
+    parts = [av.held] if av.held is not None else []
+    if field is not None and av.fields:
+        parts += [v for _k, v in av.fields]
+    own = set()
+    for t in av.own:
+        if isinstance(t, tuple):
+            own.add((t[0], t[1], _extend(t[2], suffix)))
+        elif t == _FRESH:
+            if not parts:
+                own.add(_UNKNOWN)
+        else:
+            own.add(t)
+    r = _AV(own) if own else None
+    for p in parts:
+        r = p if r is None else _av_join(r, p)
+    return r or _AV_UNKNOWN
+
+
+def _av_join(a, b):
+    if a is None:
+        return b
+    if b is None or a == b:
+        return a
+    if a.held is None and b.held is None:
+        held = None
+    else:
+        held = _av_join(a.held if a.held is not None else _av_read(a, '[…]'), b.held if b.held is not None else _av_read(b, '[…]'))
+    fields = None
+    if a.fields is not None and b.fields is not None:
+        da, db = dict(a.fields), dict(b.fields)
+        fields = {k: _av_join(da.get(k) or _av_read(a, '.' + k, k), db.get(k) or _av_read(b, '.' + k, k)) for k in set(da) | set(db)}
+    elif a.fields or b.fields:
+        for _k, v in (a.fields or b.fields):
+            held = _av_join(held, v) if held is not None else v
+    return _av_cap(_AV(a.own | b.own, held, fields))
+
+
+def _av_deepfresh(av):
+    """av as a deep copy: nothing in it is anybody else's"""
+    def tags(ts):
+        return {_FRESH if isinstance(t, tuple) else t for t in ts}
+    return _AV(tags(av.own), _av_deepfresh(av.held) if av.held is not None else None,
+               {k: _av_deepfresh(v) for k, v in av.fields} if av.fields else None)
+
+
+def _basic_slice(sl):
+    """`a:b`, or a tuple of slices / None / ... with at least one slice: numpy hands out a view"""
+    if isinstance(sl, ast.Slice):
+        return True
+    if isinstance(sl, ast.Tuple):
+        return any(isinstance(x, ast.Slice) for x in sl.elts) and all(
+            isinstance(x, ast.Slice) or (isinstance(x, ast.Constant) and (x.value is None or x.value is Ellipsis)) for x in sl.elts)
+    return False
+
+
+class _OwnState:
+    __slots__ = ('env', 'facts', 'conds')
+
+    def __init__(self, env=None, facts=None, conds=frozenset()):
+        self.env, self.facts, self.conds = env or {}, facts or {}, conds
+
+    def copy(self):
+        return _OwnState(dict(self.env), dict(self.facts), self.conds)
+
+    def same(self, o):
+        return self.env == o.env and self.facts == o.facts and self.conds == o.conds
+
+    def kill_name(self, name):
+        for k in [k for k, (names, _av) in self.facts.items() if name in names]:
+            del self.facts[k]
+
+    def kill_base(self, base):
+        for k in [k for k in self.facts if k.startswith(base + '[') or k.startswith(base + '.')]:
+            del self.facts[k]
+
+
+def _st_join(a, b):
+    env = dict(a.env)
+    for k, v in b.env.items():
+        env[k] = _av_join(env[k], v) if k in env else v
+    facts = {k: (a.facts[k][0], _av_join(a.facts[k][1], b.facts[k][1])) for k in a.facts if k in b.facts}
+    return _OwnState(env, facts, a.conds & b.conds)
+
+
+def _st_merge(states):
+    """one state per set of decided conditions (at most 8 sets, else one state)"""
+    groups = {}
+    for s in states:
+        groups[s.conds] = _st_join(groups[s.conds], s) if s.conds in groups else s
+    out = list(groups.values())
+    if len(out) > 8:
+        r = out[0]
+        for s in out[1:]:
+            r = _st_join(r, s)
+        out = [r]
+    return out
+
+
+def _cond_atom(fn, e, pol):
+    """(text, polarity) of an atomic test in a canonical spelling: `!=` / `is not` / `not in` read as the negation of
+    `==` / `is` / `in`, `is` as `==`; a local with one definition is read as that definition"""
+    seen = 0
+    while isinstance(e, ast.Name) and seen < 4:
+        v = single_def_value(fn, e.id)
+        if v is None:
+            break
+        e, seen = v, seen + 1
+        while isinstance(e, ast.UnaryOp) and isinstance(e.op, ast.Not):
+            e, pol = e.operand, not pol
+    if isinstance(e, ast.Compare) and len(e.ops) == 1:
+        op = e.ops[0]
+        sym = {ast.Eq: ('==', True), ast.NotEq: ('==', False), ast.Is: ('==', True), ast.IsNot: ('==', False),
+               ast.In: ('in', True), ast.NotIn: ('in', False)}.get(type(op))
+        if sym is not None:
+            return f'{norm(e.left)} {sym[0]} {norm(e.comparators[0])}', pol == sym[1]
+    return norm(e), pol
+
+
+def _cond_facts(fn, test, pol):
+    from ..astutil import conjuncts
+    return [_cond_atom(fn, e, p) for e, p in conjuncts(test, pol)]
+
+
+def _stable_test(fn, e, assigned):
+    """the test reads nothing this activation changes: no call, no name the function assigns"""
+    for x in ast.walk(e):
+        if isinstance(x, (ast.Call, ast.Await, ast.Yield, ast.NamedExpr, ast.Lambda)):
+            return False
+        if isinstance(x, ast.Name) and x.id in assigned:
+            v = single_def_value(fn, x.id)
+            if v is None or not _stable_test(fn, v, assigned - {x.id}):
+                return False
+    return True
+
+
+def _tracked_conditions(fn):
+    """texts of the atomic tests that the function evaluates at more than one place and that cannot change in between:
+    the analysis keeps the paths on which such a test is true apart from those on which it is false"""
+    assigned = set()
+    for t, _s, _h in stores_to(fn):
+        if isinstance(t, ast.Name):
+            assigned.add(t.id)
+    count = {}
+    for x in walk_no_nested(fn):
+        tests = []
+        if isinstance(x, (ast.If, ast.IfExp, ast.While)):
+            tests.append(x.test)
+        elif isinstance(x, ast.Match):
+            for c in x.cases:
+                if isinstance(c.pattern, ast.MatchValue):
+                    tests.append(ast.Compare(left=x.subject, ops=[ast.Eq()], comparators=[c.pattern.value]))
+        for t in tests:
+            for e, _p in _split_atoms(t):
+                if _stable_test(fn, e, assigned):
+                    k = _cond_atom(fn, e, True)[0]
+                    count[k] = count.get(k, 0) + 1
+    return {k for k, n in count.items() if n >= 2}
+
+
+def _split_atoms(e):
+    if isinstance(e, ast.UnaryOp) and isinstance(e.op, ast.Not):
+        return _split_atoms(e.operand)
+    if isinstance(e, ast.BoolOp):
+        return [x for v in e.values for x in _split_atoms(v)]
+    return [(e, True)]
+
+
+def _ctor_captures(ci, init):
+    """parameters of an __init__ that the new object keeps by reference *and writes through*: `self.a = p` /
+    `self.a = args[0]` (also through a conditional expression / `or`) for an attribute `a` that some method of the class
+    changes in place (`self.a[k] = v`, `del self.a[k]`, self.a.update(…)); a store into the new object then is a store
+    into what was handed to the constructor"""
+    from ..resolve import self_attr_stores
+    fn = init.node
+    params = set(init.params[1:])
+    written = set()
+    for c in ci.mro():
+        for meth in c.methods.values():
+            if meth.params[:1] == ['self']:
+                written |= {attr for attr, _s, how in self_attr_stores(meth) if how.startswith(('elem-', 'call-'))}
+
+    def roots(e):
+        if isinstance(e, ast.Name):
+            return {e.id} & params
+        if isinstance(e, ast.Subscript) and isinstance(e.value, ast.Name) and fn.args.vararg and e.value.id == fn.args.vararg.arg:
+            return {e.value.id}
+        if isinstance(e, ast.IfExp):
+            return roots(e.body) | roots(e.orelse)
+        if isinstance(e, ast.BoolOp):
+            return set().union(*[roots(v) for v in e.values])
+        return set()
+
+    out = set()
+    for t, s_, how in stores_to(fn):
+        if isinstance(t, ast.Attribute) and isinstance(t.value, ast.Name) and t.value.id == 'self' and how in ('assign', 'ann') \
+                and t.attr in written and getattr(s_, 'value', None) is not None:
+            out |= roots(s_.value)
+    return out
+
+
+class _FakeFI:
+    """a function that exists only as source text (positive controls)"""
+
+    def __init__(self, src, module):
+        self.node = ast.parse(src).body[0]
+        for n in ast.walk(self.node):
+            for ch in ast.iter_child_nodes(n):
+                ch._parent = n
+        self.module, self.cls, self.qualname, self.name, self.file = module, None, self.node.name, self.node.name, module.relpath
+        a = self.node.args
+        self.params = [x.arg for x in a.posonlyargs + a.args] + ([a.vararg.arg] if a.vararg else []) + \
+            [x.arg for x in a.kwonlyargs] + ([a.kwarg.arg] if a.kwarg else [])
+
+    def decorators(self):
+        return []
+
+
+class _Ownership:
+    """Runs a function's statements over abstract values (see _AV): which objects may still be somebody else's when
+    something is stored into them.  Branches are joined (a copy made on one branch only leaves the object possibly
+    foreign), except that the two outcomes of a test the function repeats unchanged are kept apart; loops run to a
+    fixed point; `for k in m: m[k] = <copy>` (every key, unconditionally) replaces what m holds; resolved functions of
+    the package are entered with the caller's values (results, and what they put into their arguments, come back)."""
+
+    def __init__(self, prog, scope):
+        self.prog, self.scope = prog, scope
+        self.sites = {}       # (file, line, col) -> dict(fi, node, text, foreign tags, partly fresh?, n)
+        self.memo = {}
+        self.busy = set()
+        self.tracked = {}
+        self.captures = {}
+        self._resolved = {}
+
+    # -- function level ------------------------------------------------------------------------------------------
+    def run_root(self, fi):
+        bound = {}
+        a = fi.node.args
+        for p in fi.params:
+            if p in ('self', 'cls') and fi.cls is not None:
+                bound[p] = _AV_UNKNOWN
+            elif (a.vararg and p == a.vararg.arg) or (a.kwarg and p == a.kwarg.arg):
+                bound[p] = _AV({_FRESH}, _AV({('foreign', 'param', p)}))
+            else:
+                bound[p] = _AV({('foreign', 'param', p)})
+        return self.analyse(fi, bound, 0)
+
+    def analyse(self, fi, bound, depth):
+        key = (id(fi.node), tuple(sorted(bound.items())))
+        if key in self.memo:
+            return self.memo[key]
+        if key in self.busy or depth > 5:
+            return _AV_UNKNOWN, {}
+        self.busy.add(key)
+        fr = _Frame(self, fi, depth)
+        st = _OwnState(dict(bound))
+        a = fi.node.args
+        defaults = dict(zip([x.arg for x in (a.posonlyargs + a.args)][len(a.posonlyargs + a.args) - len(a.defaults):], a.defaults))
+        defaults.update({x.arg: d for x, d in zip(a.kwonlyargs, a.kw_defaults) if d is not None})
+        for p in fi.params:
+            if p not in st.env:
+                d = defaults.get(p)
+                st.env[p] = _AV_SCALAR if d is None or isinstance(d, ast.Constant) else _AV({('foreign', 'global', f'default value of `{p}`')})
+        out = fr.block(fi.node.body, [st])
+        exits = fr.returns + [(None, s) for s in out]
+        ret, fin = None, None
+        for v, s in exits:
+            ret = _av_join(ret, v if v is not None else _AV_SCALAR)
+            fin = s if fin is None else _st_join(fin, s)
+        after = {}
+        if fin is not None:
+            for p in bound:
+                if not local_defs(fi.node, p) and p in fin.env and fin.env[p] != bound[p]:
+                    after[p] = fin.env[p]
+        self.busy.discard(key)
+        self.memo[key] = (ret or _AV_SCALAR, after)
+        return self.memo[key]
+
+    def resolved(self, kind, fi, call):
+        """the repository class / function a call node resolves to (looked up once per node)"""
+        from ..resolve import resolve_call, resolve_class_call
+        k = (kind, id(call))
+        if k not in self._resolved:
+            self._resolved[k] = (call, (resolve_class_call if kind == 'class' else resolve_call)(self.prog, fi, call))
+        return self._resolved[k][1]
+
+    def note_store(self, fi, node, base_av, what):
+        if not any(sf in fi.file for sf in self.scope):
+            return
+        k = (fi.file, node.lineno, node.col_offset)
+        r = self.sites.setdefault(k, {'fi': fi, 'node': node, 'what': what, 'foreign': set(), 'fresh': False, 'n': 0})
+        r['n'] += 1
+        r['foreign'] |= set(base_av.foreign())
+        r['fresh'] = r['fresh'] or _FRESH in base_av.own
+
+
+class _Frame:
+    def __init__(self, eng, fi, depth):
+        self.eng, self.fi, self.fn, self.depth = eng, fi, fi.node, depth
+        self.returns = []
+        self.loops = []
+        if id(fi.node) not in eng.tracked:
+            eng.tracked[id(fi.node)] = _tracked_conditions(fi.node)
+        self.tracked = eng.tracked[id(fi.node)]
+
+    # -- conditions ----------------------------------------------------------------------------------------------
+    def _decided(self, st, facts):
+        """False when one of the facts (text, polarity) contradicts what is known on this path"""
+        return not any((t, not p) in st.conds for t, p in facts)
+
+    def _assume(self, st, facts):
+        new = {(t, p) for t, p in facts if t in self.tracked}
+        if new:
+            st.conds = st.conds | new
+        return st
+
+    def branch(self, st, test):
+        """(state for the true outcome | None, state for the false outcome | None)"""
+        tf, ff = _cond_facts(self.fn, test, True), _cond_facts(self.fn, test, False)
+        t = self._assume(st.copy(), tf) if self._decided(st, tf) else None
+        f = self._assume(st.copy(), ff) if self._decided(st, ff) else None
+        if t is None and f is None:      # contradictory knowledge: keep both rather than lose the path
+            return st.copy(), st.copy()
+        return t, f
+
+    # -- statements ----------------------------------------------------------------------------------------------
+    def block(self, stmts, states):
+        for s in stmts:
+            if not states:
+                break
+            nxt = []
+            for st in states:
+                nxt += self.stmt(s, st)
+            states = _st_merge(nxt)
+        return states
+
+    def stmt(self, s, st):
+        if isinstance(s, ast.Assign):
+            av = self.eval(s.value, st)
+            for t in s.targets:
+                self.assign(t, av, st, s.value, s)
+            return [st]
+        if isinstance(s, ast.AnnAssign):
+            if s.value is not None:
+                self.assign(s.target, self.eval(s.value, st), st, s.value, s)
+            return [st]
+        if isinstance(s, ast.AugAssign):
+            self.eval(s.value, st)
+            if isinstance(s.target, (ast.Subscript, ast.Attribute)):
+                self.store_into(s.target, _AV({_FRESH, _SCALAR}), st, s)
+            elif isinstance(s.target, ast.Name):
+                old = st.env.get(s.target.id)
+                st.env[s.target.id] = _av_join(old, _AV({_FRESH, _SCALAR})) if old is not None else _AV_UNKNOWN
+                st.kill_name(s.target.id)
+            return [st]
+        if isinstance(s, ast.Expr):
+            self.eval(s.value, st)
+            return [st]
+        if isinstance(s, ast.Return):
+            self.returns.append((self.eval(s.value, st) if s.value is not None else _AV_SCALAR, st))
+            return []
+        if isinstance(s, ast.Raise):
+            return []
+        if isinstance(s, ast.Continue):
+            if self.loops:
+                self.loops[-1]['cont'].append(st)
+            return []
+        if isinstance(s, ast.Break):
+            if self.loops:
+                self.loops[-1]['brk'].append(st)
+            return []
+        if isinstance(s, ast.If):
+            self.eval(s.test, st)
+            t, f = self.branch(st, s.test)
+            out = []
+            if t is not None:
+                out += self.block(s.body, [t])
+            if f is not None:
+                out += self.block(s.orelse, [f])
+            return out
+        if isinstance(s, (ast.For, ast.AsyncFor)):
+            return self.loop(s, st)
+        if isinstance(s, ast.While):
+            return self.loop(s, st)
+        if isinstance(s, ast.Match):
+            return self.match(s, st)
+        if isinstance(s, (ast.With, ast.AsyncWith)):
+            for it in s.items:
+                v = self.eval(it.context_expr, st)
+                if it.optional_vars is not None:
+                    self.assign(it.optional_vars, v, st, None, s)
+            return self.block(s.body, [st])
+        if isinstance(s, ast.Try):
+            pre = st.copy()
+            body = self.block(s.body, [st])
+            out = self.block(s.orelse, [x.copy() for x in body]) if s.orelse else body
+            mid = _st_merge([pre] + [x.copy() for x in body])
+            for h in s.handlers:
+                for m in mid:
+                    hs = m.copy()
+                    if h.name:
+                        hs.env[h.name] = _AV_UNKNOWN
+                    out += self.block(h.body, [hs])
+            out = _st_merge(out)
+            if s.finalbody:
+                out = self.block(s.finalbody, out)
+            return out
+        if isinstance(s, ast.Delete):
+            for t in s.targets:
+                if isinstance(t, (ast.Subscript, ast.Attribute)):
+                    self.store_into(t, None, st, s)
+                elif isinstance(t, ast.Name):
+                    st.env.pop(t.id, None)
+                    st.kill_name(t.id)
+            return [st]
+        if isinstance(s, (ast.FunctionDef, ast.AsyncFunctionDef, ast.ClassDef)):
+            st.env[s.name] = _AV_UNKNOWN
+            return [st]
+        if isinstance(s, ast.Assert):
+            self.eval(s.test, st)
+            return [st]
+        return [st]
+
+    def match(self, s, st):
+        self.eval(s.subject, st)
+        out, rest = [], st
+        for c in s.cases:
+            if rest is None:
+                break
+            if isinstance(c.pattern, ast.MatchValue) and c.guard is None:
+                test = ast.Compare(left=s.subject, ops=[ast.Eq()], comparators=[c.pattern.value])
+                t, rest = self.branch(rest, test)
+            elif isinstance(c.pattern, ast.MatchAs) and c.pattern.pattern is None and c.guard is None:
+                t, rest = rest.copy(), None
+                if c.pattern.name:
+                    t.env[c.pattern.name] = self.eval(s.subject, t)
+            else:
+                t = rest.copy()
+                for n in ast.walk(c.pattern):
+                    for nm in (getattr(n, 'name', None), getattr(n, 'rest', None)):
+                        if isinstance(nm, str):
+                            t.env[nm] = _AV_UNKNOWN
+                            t.kill_name(nm)
+            if t is not None:
+                out += self.block(c.body, [t])
+        if rest is not None:
+            out.append(rest)
+        return out
+
+    def loop(self, s, st):
+        is_for = not isinstance(s, ast.While)
+        pre = [st]
+        cur = [st.copy()]
+        brk, out = [], []
+        for _round in range(8):
+            heads = []
+            for h in cur:
+                h = h.copy()
+                if is_for:
+                    self.bind_iteration(s.target, s.iter, h, s)
+                    heads.append(h)
+                else:
+                    self.eval(s.test, h)
+                    t, _f = self.branch(h, s.test)
+                    if t is not None:
+                        heads.append(t)
+            self.loops.append({'cont': [], 'brk': []})
+            out = self.block(s.body, heads)
+            frame = self.loops.pop()
+            out = _st_merge(out + frame['cont'])
+            brk += frame['brk']
+            new = _st_merge([p.copy() for p in pre] + [o.copy() for o in out])
+            if len(new) == len(cur) and all(a.same(b) for a, b in zip(new, cur)):
+                break
+            cur = new
+        after = [x.copy() for x in cur]
+        if is_for and out and not brk:
+            self.every_key_replaced(s, out, after)
+        if s.orelse:
+            after = self.block(s.orelse, after)
+        return _st_merge(after + brk)
+
+    def every_key_replaced(self, s, out, after):
+        """`for k in m` / `for k, v in m.items()` whose body, on every path, ends with m[k] freshly stored (and stores
+        nothing else into m): afterwards m holds what those stores put there, and nothing of what it held before"""
+        mi = map_iteration(s.target, s.iter)
+        if mi is None or mi[1] is None:
+            return
+        m, k = mi[0], mi[1]
+        if not isinstance(iterated_mapping(s.iter)[0], ast.Name):
+            return
+        path = f'{m}[{k}]'
+        if not all(path in o.facts for o in out):
+            return
+        for t, _st, _how in stores_to(s):
+            if isinstance(t, ast.Subscript) and norm(t.value) == m and norm(t.slice) != k:
+                return
+            if isinstance(t, ast.Name) and t.id in (m, k) and _st is not s:
+                return
+        for c in calls_in(s):
+            if isinstance(c.func, ast.Attribute) and norm(c.func.value) == m and c.func.attr in _INPLACE_METHODS:
+                return
+            if any(isinstance(a_, ast.Name) and a_.id == m for a_ in list(c.args) + [kw.value for kw in c.keywords]):
+                return
+        new = None
+        for o in out:
+            new = _av_join(new, o.facts[path][1])
+        for a_ in after:
+            if m in a_.env:
+                a_.env[m] = _av_cap(_AV(a_.env[m].own, new, a_.env[m].fields))
+
+    def bind_iteration(self, target, it, st, node):
+        """bind the target(s) of `for target in it` / a comprehension clause to what the iteration yields"""
+        elem, pair = None, None
+        im = iterated_mapping(it)
+        core = it
+        while isinstance(core, ast.Call) and isinstance(core.func, ast.Name) and core.func.id in ('list', 'tuple', 'sorted', 'iter', 'reversed') \
+                and len(core.args) == 1:
+            core = core.args[0]
+        if isinstance(core, (ast.List, ast.Tuple, ast.Set)):
+            for e in core.elts:
+                v = self.eval(e, st)
+                elem = _av_join(elem, _av_read(v, '[…]') if isinstance(e, ast.Starred) else v)
+            elem = elem or _AV_UNKNOWN
+        elif isinstance(core, ast.Call) and call_name(core) in ('zip', 'enumerate', 'range'):
+            cn = call_name(core)
+            if cn == 'range':
+                elem = _AV_SCALAR
+            elif cn == 'enumerate' and core.args:
+                pair = [_AV_SCALAR, _av_read(self.eval(core.args[0], st), '[…]')]
+            else:
+                pair = [_av_read(self.eval(a_, st), '[…]') for a_ in core.args]
+        elif im is not None and im[1] == 'items':
+            pair = [_AV_SCALAR, _av_read(self.eval(im[0], st), '[…]')]
+        elif im is not None and im[1] == 'values':
+            elem = _av_read(self.eval(im[0], st), '[…]')
+        elif im is not None and isinstance(core, ast.Call) and isinstance(core.func, ast.Attribute) and core.func.attr == 'keys':
+            self.eval(im[0], st)
+            elem = _AV_SCALAR
+        else:
+            elem = _av_read(self.eval(core, st), '[…]')
+        if pair is not None and isinstance(target, (ast.Tuple, ast.List)) and len(target.elts) == len(pair):
+            for t, v in zip(target.elts, pair):
+                self.assign(t, v, st, None, node)
+            return
+        if pair is not None:
+            j = None
+            for v in pair:
+                j = _av_join(j, v)
+            elem = _AV({_FRESH}, j)
+        self.assign(target, elem, st, None, node)
+
+    # -- stores --------------------------------------------------------------------------------------------------
+    def assign(self, t, av, st, value_node, stmt):
+        if isinstance(t, ast.Name):
+            st.env[t.id] = av
+            st.kill_name(t.id)
+        elif isinstance(t, (ast.Tuple, ast.List)):
+            if isinstance(value_node, (ast.Tuple, ast.List)) and len(value_node.elts) == len(t.elts) \
+                    and not any(isinstance(x, ast.Starred) for x in list(t.elts) + list(value_node.elts)):
+                for a_, b_ in zip(t.elts, value_node.elts):
+                    self.assign(a_, self.eval(b_, st), st, b_, stmt)
+            else:
+                for a_ in t.elts:
+                    self.assign(a_, _av_read(av, '[…]'), st, None, stmt)
+        elif isinstance(t, ast.Starred):
+            self.assign(t.value, _AV({_FRESH}, _av_read(av, '[…]')), st, None, stmt)
+        elif isinstance(t, (ast.Subscript, ast.Attribute)):
+            self.store_into(t, av, st, stmt)
+
+    def store_into(self, t, av, st, stmt):
+        """`B[k] = v` / `B.a = v` / `B[k] op= v` / `del B[k]`: the object B denotes is changed in place"""
+        base_e = t.value
+        base = self.eval(base_e, st)
+        if not (isinstance(t, ast.Attribute) and isinstance(base_e, ast.Name) and base_e.id in ('self', 'cls') and self.fi.cls is not None):
+            self.eng.note_store(self.fi, t, base, norm(stmt))
+        btxt = norm(self._view_root(base_e))
+        if av is not None:
+            if isinstance(t, ast.Attribute) and base.fields is not None:
+                new = _AV(base.own, base.held, dict(base.fields) | {t.attr: av})
+            elif isinstance(t, ast.Subscript) and _basic_slice(t.slice):
+                new = base
+            else:
+                new = _AV(base.own, _av_join(base.held if base.held is not None else _av_read(base, '[…]'), av), base.fields)
+            new = _av_cap(new)
+            root = self._view_root(base_e)
+            if isinstance(root, ast.Name):
+                if root.id in st.env:
+                    st.env[root.id] = new
+            elif btxt in st.facts:
+                st.facts[btxt] = (st.facts[btxt][0], new)
+        st.kill_base(norm(t) if not (isinstance(t, ast.Subscript) and _basic_slice(t.slice)) else '\0')
+        if isinstance(t, ast.Subscript) and not _basic_slice(t.slice):
+            # another key of the same container may be the same element: forget what was known about them
+            for k in [k for k in st.facts if k.startswith(btxt + '[') and k != norm(t)]:
+                del st.facts[k]
+        if av is not None and self._simple_path(t):
+            st.facts[norm(t)] = (frozenset(names_in(t)), av)
+        elif norm(t) in st.facts:
+            del st.facts[norm(t)]
+
+    @staticmethod
+    def _view_root(e):
+        while isinstance(e, ast.Subscript) and _basic_slice(e.slice):
+            e = e.value
+        return e
+
+    @staticmethod
+    def _simple_path(t):
+        if isinstance(t, ast.Attribute):
+            return isinstance(t.value, ast.Name)
+        if isinstance(t, ast.Subscript) and isinstance(t.value, (ast.Name, ast.Attribute)) and not _basic_slice(t.slice):
+            return all(isinstance(x, (ast.Name, ast.Attribute, ast.Constant, ast.Load)) for x in ast.walk(t.slice)) \
+                and all(isinstance(x, (ast.Name, ast.Attribute, ast.Load)) for x in ast.walk(t.value))
+        return False
+
+    # -- expressions ---------------------------------------------------------------------------------------------
+    def eval(self, e, st):
+        if e is None:
+            return _AV_SCALAR
+        if isinstance(e, ast.Constant):
+            return _AV_SCALAR
+        if isinstance(e, ast.Name):
+            if e.id in st.env:
+                return st.env[e.id]
+            return self.global_name(e.id)
+        if isinstance(e, (ast.Attribute, ast.Subscript)):
+            txt = norm(e)
+            if txt in st.facts:
+                return st.facts[txt][1]
+            base = self.eval(e.value, st)
+            if isinstance(e, ast.Attribute):
+                if e.attr == 'T':
+                    return base
+                return _av_read(base, '.' + e.attr, e.attr)
+            if _basic_slice(e.slice):
+                return base          # a basic slice of an array is a view of it
+            self.eval(e.slice, st)
+            return _av_read(base, f'[{_clip(norm(e.slice), 24)}]')
+        if isinstance(e, ast.Call):
+            return self.call(e, st)
+        if isinstance(e, ast.BoolOp):
+            r = None
+            for v in e.values:
+                r = _av_join(r, self.eval(v, st))
+            return r
+        if isinstance(e, ast.IfExp):
+            self.eval(e.test, st)
+            t, f = self.branch(st, e.test)
+            r = None
+            if t is not None:
+                r = _av_join(r, self.eval(e.body, t))
+            if f is not None:
+                r = _av_join(r, self.eval(e.orelse, f))
+            return r
+        if isinstance(e, (ast.BinOp, ast.UnaryOp)):
+            for ch in ast.iter_child_nodes(e):
+                if isinstance(ch, ast.expr):
+                    self.eval(ch, st)
+            return _AV({_FRESH}, _AV_SCALAR)
+        if isinstance(e, ast.Compare):
+            self.eval(e.left, st)
+            for c in e.comparators:
+                self.eval(c, st)
+            return _AV({_FRESH}, _AV_SCALAR)
+        if isinstance(e, ast.Dict):
+            h = None
+            for k, v in zip(e.keys, e.values):
+                x = self.eval(v, st)
+                h = _av_join(h, _av_read(x, '[…]') if k is None else x)
+            return _av_cap(_AV({_FRESH}, h or _AV_SCALAR))
+        if isinstance(e, (ast.List, ast.Tuple, ast.Set)):
+            h = None
+            for v in e.elts:
+                x = self.eval(v.value if isinstance(v, ast.Starred) else v, st)
+                h = _av_join(h, _av_read(x, '[…]') if isinstance(v, ast.Starred) else x)
+            return _av_cap(_AV({_FRESH}, h or _AV_SCALAR))
+        if isinstance(e, (ast.ListComp, ast.SetComp, ast.GeneratorExp, ast.DictComp)):
+            inner = st.copy()
+            for g in e.generators:
+                self.bind_iteration(g.target, g.iter, inner, e)
+                for c in g.ifs:
+                    self.eval(c, inner)
+            return _av_cap(_AV({_FRESH}, self.eval(e.value if isinstance(e, ast.DictComp) else e.elt, inner)))
+        if isinstance(e, ast.NamedExpr):
+            v = self.eval(e.value, st)
+            self.assign(e.target, v, st, e.value, e)
+            return v
+        if isinstance(e, ast.Starred):
+            return _av_read(self.eval(e.value, st), '[…]')
+        if isinstance(e, (ast.JoinedStr, ast.FormattedValue)):
+            return _AV_SCALAR
+        return _AV_UNKNOWN
+
+    def global_name(self, name):
+        r = self.eng.prog.resolve_name(self.fi.module, name)
+        if isinstance(r, tuple) and r[0] == 'const':
+            v = r[1].constants[r[2]]
+            if isinstance(v, ast.Constant) or (isinstance(v, (ast.BinOp, ast.UnaryOp)) and not any(isinstance(x, ast.Call) for x in ast.walk(v))):
+                return _AV_SCALAR
+            return _AV({('foreign', 'global', name)})
+        return _AV_UNKNOWN
+
+    # -- calls ---------------------------------------------------------------------------------------------------
+    def call(self, e, st):
+        args = [self.eval(a_, st) for a_ in e.args]
+        kws = {k.arg: self.eval(k.value, st) for k in e.keywords}
+        cn = call_name(e).split('[')[0]
+        f = e.func
+        head = cn.split('.')[0]
+        is_module_fn = isinstance(f, ast.Name) or (isinstance(f, ast.Subscript)) or (head in self.fi.module.imports and head not in st.env)
+        plain = not any(isinstance(a_, ast.Starred) for a_ in e.args) and None not in kws
+        if is_module_fn:
+            if cn in _DEEPCOPY_FUNCS and args:
+                return _av_deepfresh(_AV({_FRESH}, args[0].held, args[0].fields))
+            if cn in _VIEW_FUNCS and args:
+                cp = kwarg(e, 'copy')
+                if not (isinstance(cp, ast.Constant) and cp.value is True):
+                    return args[0]
+                return _AV({_FRESH}, _AV_SCALAR)
+            if cn == 'getattr' and len(e.args) >= 2 and isinstance(e.args[1], ast.Constant) and isinstance(e.args[1].value, str):
+                r = _av_read(args[0], '.' + e.args[1].value, e.args[1].value)
+                return _av_join(r, args[2]) if len(args) > 2 else r
+            ci = self.eng.resolved('class', self.fi, e) if plain else None
+            if ci is not None:
+                return self.construct(ci, e, args, kws)
+            if cn in _COPY_FUNCS and plain:
+                h = None
+                for a_ in args:
+                    h = _av_join(h, _av_read(a_, '[…]'))
+                for v in kws.values():
+                    h = _av_join(h, v)
+                return _av_cap(_AV({_FRESH}, h or _AV_SCALAR))
+            callee = self.eng.resolved('call', self.fi, e) if plain else None
+            if callee is not None and callee.cls is None:
+                if any('cache' in d for d in callee.decorators()):
+                    return _AV({('foreign', 'memo', f'{callee.name}(…)')})
+                if any(sf in callee.file for sf in self.eng.scope) and not callee.node.decorator_list:
+                    return self.enter(callee, e, args, kws, st)
+            return _AV_UNKNOWN
+        # a method of some object
+        recv = self.eval(f.value, st)
+        m = f.attr
+        rtxt = norm(f.value)
+        if m == 'copy':
+            # a `copy` method of the repository is taken at its word only after reading it: one that hands back the
+            # receiver itself on some path (`if self._mutable: return self`) does not give the caller an object of its own
+            meth = self.copy_method(e) if plain else None
+            if meth is not None:
+                ret = self.enter(meth, e, args, kws, st, recv)
+                if any(t == _FRESH or isinstance(t, tuple) for t in ret.own):
+                    return ret
+            return _av_cap(_AV({_FRESH}, recv.held if recv.held is not None else _av_read(recv, '[…]'), recv.fields))
+        if m == '__deepcopy__':
+            return _av_deepfresh(_AV({_FRESH}, recv.held, recv.fields))
+        if m == 'astype':
+            cp = kwarg(e, 'copy')
+            return recv if isinstance(cp, ast.Constant) and cp.value is False else _AV({_FRESH}, _AV_SCALAR)
+        if m in _VIEW_METHODS:
+            return recv
+        if m in _INPLACE_METHODS:
+            self.eng.note_store(self.fi, e, recv, norm(e))
+            add, strong = None, False
+            if m == 'update':
+                add = self.update_every_key(e, st)
+                strong = add is not None
+                if not strong:
+                    for a_ in args:
+                        add = _av_join(add, _av_read(a_, '[…]'))
+                    for v in kws.values():
+                        add = _av_join(add, v)
+            elif m == 'extend':
+                for a_ in args:
+                    add = _av_join(add, _av_read(a_, '[…]'))
+            elif m in ('append', 'add', 'appendleft'):
+                add = args[0] if args else None
+            elif m in ('insert', 'setdefault'):
+                add = args[1] if len(args) > 1 else None
+            if add is not None:
+                held = add if strong else _av_join(recv.held if recv.held is not None else _av_read(recv, '[…]'), add)
+                new = _av_cap(_AV(recv.own, held, recv.fields))
+                if isinstance(f.value, ast.Name) and f.value.id in st.env:
+                    st.env[f.value.id] = new
+                elif rtxt in st.facts:
+                    st.facts[rtxt] = (st.facts[rtxt][0], new)
+            st.kill_base(rtxt)
+            if m in ('pop', 'setdefault', 'popitem'):
+                return _av_read(recv, '[…]')
+            return _AV_SCALAR
+        if m in ('values', 'keys'):
+            return _AV({_FRESH}, _av_read(recv, '[…]') if m == 'values' else _AV_SCALAR)
+        if m == 'items':
+            return _AV({_FRESH}, _AV({_FRESH}, _av_read(recv, '[…]')))
+        if m == 'get':
+            r = _av_read(recv, '[…]')
+            return _av_join(r, args[1]) if len(args) > 1 else r
+        return _AV_UNKNOWN
+
+    def update_every_key(self, e, st):
+        """`m.update({k: E for k in m})` / `… for k, v in m.items()`: every key of m gets E"""
+        f = e.func
+        if not (isinstance(f.value, ast.Name) and len(e.args) == 1 and not e.keywords and isinstance(e.args[0], ast.DictComp)):
+            return None
+        dc = e.args[0]
+        if len(dc.generators) != 1 or dc.generators[0].ifs:
+            return None
+        g = dc.generators[0]
+        mi = map_iteration(g.target, g.iter)
+        if mi is None or mi[0] != f.value.id or mi[1] is None or norm(dc.key) != mi[1]:
+            return None
+        inner = st.copy()
+        self.bind_iteration(g.target, g.iter, inner, dc)
+        return self.eval(dc.value, inner)
+
+    def construct(self, ci, e, args, kws):
+        init = ci.find_method('__init__')
+        if init is not None:
+            key = id(init.node)
+            if key not in self.eng.captures:
+                self.eng.captures[key] = _ctor_captures(ci, init)
+            cap = self.eng.captures[key]
+            a = init.node.args
+            fixed = [x.arg for x in a.posonlyargs + a.args][1:]
+            own, held = {_FRESH}, None
+            for i, v in enumerate(args):
+                p = fixed[i] if i < len(fixed) else (a.vararg.arg if a.vararg else None)
+                if p in cap:
+                    own |= {t for t in v.own if t != _FRESH and t != _SCALAR}
+                    held = _av_join(held, _av_read(v, '[…]'))
+            for k, v in kws.items():
+                if k in cap:
+                    own |= {t for t in v.own if t != _FRESH and t != _SCALAR}
+                    held = _av_join(held, _av_read(v, '[…]'))
+            return _av_cap(_AV(own, held))
+        order = list(ci.all_fields())
+        fields = {order[i]: v for i, v in enumerate(args) if i < len(order)}
+        fields.update({k: v for k, v in kws.items() if k})
+        return _av_cap(_AV({_FRESH}, None, fields))
+
+    def copy_method(self, e):
+        """the repository method a call `x.copy(…)` runs: resolved through the receiver's class when that is known, else
+        the only `copy` method of the repository that accepts the keywords of the call"""
+        r = self.eng.resolved('call', self.fi, e)
+        if r is None and e.keywords:
+            kws = {k.arg for k in e.keywords}
+            cands = []
+            for c in self.eng.prog.all_classes():
+                mth = c.methods.get('copy')
+                if mth is not None and not mth.node.decorator_list:
+                    a = mth.node.args
+                    if kws <= {x.arg for x in a.args + a.kwonlyargs} and len(e.args) < len(a.args):
+                        cands.append(mth)
+            r = cands[0] if len(cands) == 1 else None
+        return r if r is not None and r.cls is not None and not r.node.decorator_list and r.params[:1] == ['self'] else None
+
+    def enter(self, callee, e, args, kws, st, recv=None):
+        a = callee.node.args
+        names = [x.arg for x in a.posonlyargs + a.args]
+        bound, exprs = {}, {}
+        if recv is not None:
+            bound[names[0]], names = recv, names[1:]
+        for i, v in enumerate(args):
+            if i < len(names):
+                bound[names[i]], exprs[names[i]] = v, e.args[i]
+            elif a.vararg:
+                bound[a.vararg.arg] = _av_join(bound.get(a.vararg.arg), _AV({_FRESH}, v))
+        for k in e.keywords:
+            if k.arg in names or k.arg in [x.arg for x in a.kwonlyargs]:
+                bound[k.arg], exprs[k.arg] = kws[k.arg], k.value
+            elif a.kwarg:
+                bound[a.kwarg.arg] = _av_join(bound.get(a.kwarg.arg), _AV({_FRESH}, kws[k.arg]))
+        ret, after = self.eng.analyse(callee, bound, self.depth + 1)
+        for p, av in after.items():
+            x = exprs.get(p)
+            if isinstance(x, ast.Name) and x.id in st.env:
+                st.env[x.id] = av
+                st.kill_base(x.id)
+            elif x is not None and norm(x) in st.facts:
+                st.facts[norm(x)] = (st.facts[norm(x)][0], av)
+                st.kill_base(norm(x))
+        return ret
+
+
+_R7_CONTROL_BAD = '''
+def control(model):
+    table = {}
+    table['a'] = model.data.first
+    table['b'] = model.data.first * 2.0
+    for key in table:
+        item = table[key]
+        if not item._mutable:
+            item = table[key] = item.copy()
+        item[0] = 0.0
+    return table
+'''
+_R7_CONTROL_GOOD = '''
+def control(model, flag):
+    table = {}
+    table['a'] = model.data.first
+    if flag.on:
+        for key in table:
+            table[key] = table[key].copy()
+    if flag.on:
+        for key in table:
+            table[key][0] = 0.0
+    return table
+'''
+
+
+def rule_foreign_stores(ctx):
+    """R7: nothing a producer writes in place may still be the caller's."""
+    prog = ctx.prog
+    scope = ('/emissions/',)
+    lto_mod = prog.module(LTO)
+    # positive / negative control: the same engine on two embedded functions
+    verdicts = []
+    for src in (_R7_CONTROL_BAD, _R7_CONTROL_GOOD):
+        eng = _Ownership(prog, scope)
+        eng.run_root(_FakeFI(src, lto_mod))
+        verdicts.append(sorted(r['node'].lineno for r in eng.sites.values() if r['foreign']))
+    ctx.control('C01-R7', verdicts == [[10], []],
+                'embedded zeroing after a copy made on one branch only is recognised as a write into caller-held data; '
+                'the same zeroing after an unconditional copy of every element (in a separate loop, under the same repeated test) is not')
+    eng = _Ownership(prog, scope)
+    from ..resolve import callees
+    fns = [fi for m in prog.src_modules() if any(sf in m.relpath for sf in scope) for fi in m.functions.values()]
+    called = {id(g.node) for f in fns for _c, g in callees(prog, f) if g is not None and g.node is not f.node}
+    n = 0
+    for fi in fns:
+        if '<locals>' in fi.qualname:
+            continue
+        if fi.cls is None and fi.name.startswith('_') and not fi.name.startswith('__') and id(fi.node) in called:
+            continue            # a private helper: judged with what its callers in the package hand it
+        n += 1
+        eng.run_root(fi)
+    ctx.floor('C01-R7', len(eng.sites), 6, 'in-place stores examined in the emissions package')
+    lto_sites = 0
+    for (file, line, _col), r in sorted(eng.sites.items()):
+        fi = r['fi']
+        lto_sites += file == LTO
+        bad = sorted(r['foreign'])
+        if not bad:
+            ctx.ob('C01-R7', fi, f'in-place `{_clip(r["what"], 60)}`', True,
+                   'the written object was created by this computation on every path (constructed, computed or copied)', line=line,
+                   nontrivial=r['fresh'])
+            continue
+        kinds = {'param': 'the caller\'s', 'global': 'the module-level', 'memo': 'the memoised'}
+        bad.sort(key=lambda t: (('param', 'global', 'memo').index(t[1]) if t[1] in ('param', 'global', 'memo') else 9, t[2]))
+        whose = '; '.join(f'{kinds.get(k, k)} `{txt}`' for _f, k, txt in bad[:3])
+        partly = (' (it is an object created here only on some paths, for some of the elements or from some callers: a copy made under a condition - '
+                  'a flag of the object, an emptiness or type test - does not make the object this function\'s own where the '
+                  'condition fails)') if r['fresh'] else ''
+        ctx.ob('C01-R7', fi, f'in-place `{_clip(r["what"], 60)}`', False,
+               f'the object written here can still be {whose}{partly}: the change stays in data the function does not own, so the next '
+               'inventory computed from the same data starts from altered (zeroed) indices / fuel and is no longer balanced or finite',
+               line=line)
+    ctx.ob('C01-R7', ('src/AEIC/emissions', '<package>'), f'{n} function(s) run, {len(eng.sites)} in-place stores examined', True,
+           'see above', nontrivial=False)
+
+
 def run(ctx):
     rule_cached_mutables(ctx)
+    rule_foreign_stores(ctx)
     rule_sum(ctx)
     rule_fuel(ctx)
     rule_amounts(ctx)
